@@ -27,6 +27,15 @@ def checkServe (c : Case) : VM Unit := do
     if sent != ok then vfail "C18" "keep-alive-request-not-answered" s!"sent={sent} answered-correctly={ok} {detail}"
     if (get "final").headD "0" == "1" then vstat "serve.keep-alive-requests" (nat! sent)
   | _ => pure ()
+  -- hammer phase: back-to-back solves and health polls by concurrent clients, every one answered
+  match get "hammer" with
+  | [sv, svok, hl, hlok, detail] =>
+    if sv != svok || hl != hlok then
+      vfail "C18" "concurrent-request-not-answered" s!"solves={sv} ok={svok} health={hl} ok={hlok} {detail}"
+    if (get "final").headD "0" == "1" then do
+      vstat "serve.hammer-solves" (nat! sv)
+      vstat "serve.hammer-health" (nat! hl)
+  | _ => pure ()
   match get "healthprobes" with
   | [n, ok] => if n != ok then vfail "C18" "health-during-load" s!"probes={n} healthy={ok}"
   | _ => pure ()
